@@ -889,6 +889,26 @@ def syncUpstreamCluster (env : Env) (remote : Bool) (m : Manager) (c : Cluster) 
         | .error e => throw e
         | .ok m' => pure (m'.map (fun kv => if kv.2.cluster = info'.cluster then (kv.1, info') else kv))
 
+/-- the manager of a gateway that already serves OTHER clusters: the controller's handler ran for each of them in
+    turn (a cluster it refused - requeue - or whose name is already registered is not served) -/
+def applyOthers (env : Env) (remote : Bool) : Manager → List Cluster → Manager
+  | m, [] => m
+  | m, u :: rest =>
+    match alGet m (env.lower u.name) with
+    | some _ => applyOthers env remote m rest
+    | none =>
+      match syncUpstreamCluster env remote m u with
+      | .ok m' => applyOthers env remote m' rest
+      | .error _ => applyOthers env remote m rest
+
+/-- a cluster of which only the names matter (what the lister entry `Known` stands for) -/
+def Known.toCluster (k : Known) : Cluster :=
+  { name := k.name, metaErrs := [], annotations := none, servers := [],
+    clientConfig := ⟨false, [], [], [], [], 0, 0, 0⟩, secureServing := ⟨[], [], [], k.serverNames⟩,
+    schemas := [], loggingMode := [], policies := [] }
+
+def Cluster.toKnown (c : Cluster) : Known := ⟨c.name, c.secureServing.serverNames⟩
+
 /-! ## The limiter server: pkg/ratelimiter/limiter/ratelimter.go, store/local -/
 
 /-- `toFlowControlLimit(schema)` -/
